@@ -371,6 +371,30 @@ def r2_field_order(cx):
     cx.require(len(ep) == 2, fn, "epochs are compared as integers", rule="C13.R2", construct="int(left.epoch), int(right.epoch)")
 
 
+def r2b_compare_is_pure(cx):
+    """The base comparison is a function of the two packages as they are now: a value remembered on a package at its first comparison (a converted
+    epoch, a parsed version) is stale once the field is reassigned (InstalledRpm.source copies the epoch of the binary package)."""
+    cx.rule("C13.R2", "epoch, then version, then release; each compared field against the same field", floor=27)
+    m = cx.repo.module(RV)
+    fn = m.func("rpm_version_compare", "C13.R2")
+    bad = []
+    todo, seen = [fn], set()
+    while todo:
+        f = todo.pop()
+        if id(f) in seen:
+            continue
+        seen.add(id(f))
+        ps = set(params(f))
+        for x in ast.walk(f):
+            if isinstance(x, (ast.Attribute, ast.Subscript)) and isinstance(x.ctx, (ast.Store, ast.Del)) and U(x).split(".")[0].split("[")[0] in ps:
+                bad.append(x)
+            if isinstance(x, ast.Call) and call_name(x) in ("setattr", "object.__setattr__") and x.args and U(x.args[0]) in ps:
+                bad.append(x)
+            if isinstance(x, ast.Call) and isinstance(x.func, ast.Name):
+                todo += [g for g in m.tree.body if isinstance(g, FUNC_TYPES) and g.name == x.func.id and g.name != "_rpm_vercmp"]
+    cx.require(not bad, bad[0] if bad else fn, "rpm_version_compare (and its helpers) keeps nothing on the packages it compares", construct=short(stmt_of(bad[0]), 80) if bad else "def rpm_version_compare")
+
+
 def r3_lookups(cx):
     cx.rule("C13.R3", "newest / oldest are the maximum / minimum under the comparison", floor=4)
     m = cx.repo.module(IR)
@@ -462,6 +486,7 @@ def run(cx):
     cx.guard(r1_operator_coherence)
     cx.guard(r1b_pure_comparisons)
     cx.guard(r2_field_order)
+    cx.guard(r2b_compare_is_pure)
     cx.guard(r3_lookups)
     cx.guard(r4_normalisation)
     cx.guard(r4b_whole_operands)
